@@ -116,7 +116,7 @@ def normalise(canon):
 def run(check):
     n = check.pick(40, 400)
     reps = check.pick(30, 60)
-    check.rule = ("generated programs (all shapes, tags, inferred output objects): each text is parsed and prepared %d times in one process (Go randomises map "
+    check.rule = ("(engine) trees whose sub-workflow files form a diamond without a cycle parsed repeatedly through engine.Parse: one verdict; generated programs (all shapes, tags, inferred output objects): each text is parsed and prepared %d times in one process (Go randomises map "
                   "iteration per range loop), then once per variant: steps/outputs/map keys permuted, and steps consistently renamed; canonical form = DAG (nodes, "
                   "kinds, typed dependencies) + OutputSchema() self-serialised + Namespaces() keys and object ids, with generated ids renamed; all verdicts and "
                   "canonical forms must coincide (variants: modulo ordering and the renaming); non-trivial = >=2 steps and >=1 inferred object schema; "
@@ -179,6 +179,20 @@ def run(check):
         steps = [a, b]
         rng.shuffle(steps)
         gs.append({"program": Program(steps, outs, gen.BASE_INPUT), "shape": "values-spelled-like-sibling-keys"})
+    # loops over a sub-workflow whose input has several properties that refer to the same object of the same step namespace
+    # (the parent re-exports one namespace per property)
+    from ..model import InputSchema
+    for k in range(check.pick(4, 16)):
+        rng = random.Random(derive_seed(check.seed, "c16-nsrefs", k))
+        names = ["first", "second", "third"][:2 + k % 2]
+        props = {"tag": {"type": "string"}}
+        for nm in names:
+            props[nm] = {"type": ("ref", "WorkInput", "$.steps.w0.starting.inputs.input"), "required": False}
+        sub = Program([gen.plugin_step("w0", Expr(In("tag")), src="sub_w0")], {"success": {"t": gen.tagref("w0")}}, InputSchema(props, root="Item"), name="sub.yaml")
+        steps = [Step("loop", "foreach", sub=sub, items=Expr(In("items")), parallelism=rng.choice([1, 2]))]
+        if k % 4 >= 2:
+            steps.append(gen.plugin_step("after", Expr(In("tag")), wait_for=Expr(Ref("loop", "outputs", "success"))))
+        gs.append({"program": Program(steps, {"success": {"d": Expr(Ref("loop", "outputs", "success", "data"))}}, gen.BASE_INPUT), "shape": "loop-over-sub-with-%d-references-into-one-namespace" % len(names)})
     items, idx = [], 0
     for gi, g in enumerate(gs):
         prog = g["program"]
@@ -232,9 +246,45 @@ def run(check):
             pa, pb = pb, pa  # also the other way round
         seq = [{"files": pa.files(), "input": None}, {"files": pb.files(), "input": None}, {"files": pa.files(), "input": None}]
         hist.append(({"id": "c16-h%04d" % k, "mode": "seq", "files": {}, "scripts": scripts, "runs": [], "extra": {"sequence": seq}, "no_events": True}, what))
+    # trees of sub-workflow files that share files without any cycle (a diamond: the main workflow loops over a.yaml and b.yaml,
+    # b.yaml loops over a.yaml too), parsed through the engine entry point many times: the verdict is always the same
+    LOOP = '  %s: {kind: foreach, workflow: %s, items: [{tag: !expr "$.input.tag"}]}\n'
+    def wf(root, loops, leaf=False):
+        head = "version: v0.2.0\ninput: {root: %s, objects: {%s: {id: %s, properties: {tag: {type: {type_id: string}}}}}}\nsteps:\n" % (root, root, root)
+        if leaf:
+            return head + '  w: {plugin: {src: leaf_w, deployment_type: scripted}, input: {tag: !expr "$.input.tag"}}\noutputs:\n  success: {t: !expr "$.steps.w.outputs.success.tag"}\n'
+        body = "".join(LOOP % ("l%d" % i, f) for i, f in enumerate(loops))
+        return head + body + "outputs:\n  success: {" + ", ".join('d%d: !expr "$.steps.l%d.outputs.success.data"' % (i, i) for i in range(len(loops))) + "}\n"
+    diamonds = {
+        "diamond": {"workflow.yaml": wf("RootObject", ["a.yaml", "b.yaml"]), "a.yaml": wf("Item", [], leaf=True), "b.yaml": wf("Item", ["a.yaml"])},
+        "diamond-deep": {"workflow.yaml": wf("RootObject", ["a.yaml", "b.yaml", "c.yaml"]), "a.yaml": wf("Item", ["leaf.yaml"]), "b.yaml": wf("Item", ["a.yaml", "leaf.yaml"]), "c.yaml": wf("Item", ["b.yaml", "a.yaml"]),
+                         "leaf.yaml": wf("Item", [], leaf=True)},
+        "cycle": {"workflow.yaml": wf("RootObject", ["a.yaml", "b.yaml"]), "a.yaml": wf("Item", ["b.yaml"]), "b.yaml": wf("Item", ["a.yaml"])},
+    }
+    engine_cases = []
+    for name, files in sorted(diamonds.items()):
+        for rep in range(check.pick(16, 48)):
+            engine_cases.append(({"id": "c16-e%s%03d" % (name[:3] + name[-2:], rep), "mode": "engine", "files": files, "scripts": {}, "runs": [], "extra": {"engine": {"cache": "context", "parse_only": True}}, "no_events": True}, name))
     with harness.Runner(instrument=False) as rn:
         out = rn.run_cases([c for c, _g, _v, _m in items], per_case_timeout=120)
+        eout = rn.run_cases([c for c, _n in engine_cases], per_case_timeout=120)
         hout = rn.run_cases([c for c, _w in hist], per_case_timeout=120)
+    verdicts = {}
+    for case, name in engine_cases:
+        o = eout.get(case["id"], {})
+        check.count()
+        if "result" not in o:
+            check.inconclusive_case(case["id"], str(o.get("death", {}).get("key")))
+            continue
+        err = o["result"].get("parse_err") or o["result"].get("prepare_err")
+        verdicts.setdefault(name, {}).setdefault("refused" if err else "accepted", []).append((case, (err or "")[:200]))
+    for name, vs in sorted(verdicts.items()):
+        want = "refused" if name == "cycle" else "accepted"
+        if len(vs) > 1 or want not in vs:
+            other = [k for k in vs if k != want][0]
+            check.report("verdict@engine-parse:%s" % name, "the tree %r parsed %d times through the engine entry point: %s (expected always %s); e.g. %s" % (
+                name, sum(len(v) for v in vs.values()), {k: len(v) for k, v in vs.items()}, want, vs[other][0][1]), {"case": vs[other][0][0]})
+        check.nontrivial("engine-parse|%s|%s" % (name, sorted(vs)))
     for case, what in hist:
         o = hout.get(case["id"], {})
         check.count()
